@@ -418,10 +418,15 @@ func c11RogueReply(m *Sim, w *World, s *c11Server, srvs []*c11Server, dev *Devic
 		}
 		m.Probe("c11.rogue.bans")
 		return signed(list), stall
-	case 4: // un-ban attempt: replays of non-banned entries
+	case 4: // un-ban attempt: replays of non-banned entries, also with another address
 		var list []server.AuthorizedServer
+		moved := m.C.Chance("unban-moved", 1, 2)
 		for _, o := range srvs {
-			list = append(list, entry(o, false))
+			e := entry(o, false)
+			if moved {
+				e = SignServer(gca, server.AuthorizedServer{PublicKey: o.key.Pub, Location: "moved.sim", HttpPort: 5, TcpPort: 5, UdpPort: 5})
+			}
+			list = append(list, e)
 		}
 		return signed(list), stall
 	case 5: // hundreds of entries
